@@ -1,0 +1,450 @@
+//go:build verif
+
+package keeper
+
+// Machine-checked contracts for /verif's VC generator (govc). Comment-only file:
+// with the build tag off the compiler never sees it, with it on it compiles to nothing.
+// Syntax and semantics: /verif/DESIGN.md section 2.2.
+//
+// `st` is the abstract module state (DESIGN 2.5); `old(e)` is e at entry; `events` / `calls`
+// are the typed events emitted / dependency calls made by this call; `emits L` / `calls L`
+// mean: on success (err == nil) the log is exactly L. `modifies` is the frame: every abstract
+// component not named is unchanged on every path, a keyed one only at that key.
+
+// ======================================================================= L2: accessors
+// Verified against the raw KV store model (layer L2); used by contract everywhere else.
+
+// ---- roles
+
+//@ func (Keeper) GetOwner(ctx) (owner)
+//@ layer L2
+//@ requires[inited] st.owner.set
+//@ ensures[get] owner == st.owner.val
+//@ modifies none
+
+//@ func (Keeper) GetPendingOwner(ctx) (pendingOwner, found)
+//@ layer L2
+//@ ensures[get] found == st.pendingOwner.set
+//@ ensures[get.val] found ==> pendingOwner == st.pendingOwner.val
+//@ ensures[get.zero] !found ==> pendingOwner == ""
+//@ modifies none
+
+//@ func (Keeper) GetAttesterManager(ctx) (attesterManager)
+//@ layer L2
+//@ requires[inited] st.attesterManager.set
+//@ ensures[get] attesterManager == st.attesterManager.val
+//@ modifies none
+
+//@ func (Keeper) GetPauser(ctx) (pauser)
+//@ layer L2
+//@ requires[inited] st.pauser.set
+//@ ensures[get] pauser == st.pauser.val
+//@ modifies none
+
+//@ func (Keeper) GetTokenController(ctx) (tokenController)
+//@ layer L2
+//@ requires[inited] st.tokenController.set
+//@ ensures[get] tokenController == st.tokenController.val
+//@ modifies none
+
+//@ func (Keeper) SetOwner(ctx, owner)
+//@ layer L2
+//@ ensures[set] st.owner.set && st.owner.val == owner
+//@ modifies st.owner
+
+//@ func (Keeper) SetPendingOwner(ctx, pendingOwner)
+//@ layer L2
+//@ ensures[set] st.pendingOwner.set && st.pendingOwner.val == pendingOwner
+//@ modifies st.pendingOwner
+
+//@ func (Keeper) DeletePendingOwner(ctx)
+//@ layer L2
+//@ ensures[del] !st.pendingOwner.set
+//@ modifies st.pendingOwner
+
+//@ func (Keeper) SetAttesterManager(ctx, attesterManager)
+//@ layer L2
+//@ ensures[set] st.attesterManager.set && st.attesterManager.val == attesterManager
+//@ modifies st.attesterManager
+
+//@ func (Keeper) SetPauser(ctx, pauser)
+//@ layer L2
+//@ ensures[set] st.pauser.set && st.pauser.val == pauser
+//@ modifies st.pauser
+
+//@ func (Keeper) SetTokenController(ctx, tokenController)
+//@ layer L2
+//@ ensures[set] st.tokenController.set && st.tokenController.val == tokenController
+//@ modifies st.tokenController
+
+// ---- flags and scalars
+
+//@ func (Keeper) GetBurningAndMintingPaused(ctx) (val, found)
+//@ layer L2
+//@ ensures[get] found == st.bmPaused.set
+//@ ensures[get.val] found ==> val.Paused == st.bmPaused.val
+//@ ensures[get.zero] !found ==> !val.Paused
+//@ modifies none
+
+//@ func (Keeper) SetBurningAndMintingPaused(ctx, paused)
+//@ layer L2
+//@ ensures[set] st.bmPaused.set && st.bmPaused.val == paused.Paused
+//@ modifies st.bmPaused
+
+//@ func (Keeper) GetSendingAndReceivingMessagesPaused(ctx) (val, found)
+//@ layer L2
+//@ ensures[get] found == st.srPaused.set
+//@ ensures[get.val] found ==> val.Paused == st.srPaused.val
+//@ ensures[get.zero] !found ==> !val.Paused
+//@ modifies none
+
+//@ func (Keeper) SetSendingAndReceivingMessagesPaused(ctx, paused)
+//@ layer L2
+//@ ensures[set] st.srPaused.set && st.srPaused.val == paused.Paused
+//@ modifies st.srPaused
+
+//@ func (Keeper) GetMaxMessageBodySize(ctx) (val, found)
+//@ layer L2
+//@ ensures[get] found == st.maxBody.set
+//@ ensures[get.val] found ==> val.Amount == st.maxBody.val
+//@ ensures[get.zero] !found ==> val.Amount == 0
+//@ modifies none
+
+//@ func (Keeper) SetMaxMessageBodySize(ctx, amount)
+//@ layer L2
+//@ ensures[set] st.maxBody.set && st.maxBody.val == amount.Amount
+//@ modifies st.maxBody
+
+//@ func (Keeper) GetSignatureThreshold(ctx) (val, found)
+//@ layer L2
+//@ ensures[get] found == st.threshold.set
+//@ ensures[get.val] found ==> val.Amount == st.threshold.val
+//@ ensures[get.zero] !found ==> val.Amount == 0
+//@ modifies none
+
+//@ func (Keeper) SetSignatureThreshold(ctx, key)
+//@ layer L2
+//@ ensures[set] st.threshold.set && st.threshold.val == key.Amount
+//@ modifies st.threshold
+
+//@ func (Keeper) GetNextAvailableNonce(ctx) (val, found)
+//@ layer L2
+//@ ensures[get] found == st.nextNonce.set
+//@ ensures[get.val] found ==> val.Nonce == st.nextNonce.val && val.SourceDomain == st.nextNonce.dom
+//@ ensures[get.zero] !found ==> val.Nonce == 0 && val.SourceDomain == 0
+//@ modifies none
+
+//@ func (Keeper) SetNextAvailableNonce(ctx, key)
+//@ layer L2
+//@ ensures[set] st.nextNonce.set && st.nextNonce.val == key.Nonce && st.nextNonce.dom == key.SourceDomain
+//@ modifies st.nextNonce
+
+// An absent counter reads as 0 (MustUnmarshal of no bytes); arithmetic is modulo 2^64.
+//@ func (Keeper) ReserveAndIncrementNonce(ctx) (val)
+//@ layer L2
+//@ ensures[C07.reserve] val.Nonce == (old(st.nextNonce.set) ? old(st.nextNonce.val) : 0)
+//@ ensures[C07.incr] st.nextNonce.set && st.nextNonce.val == val.Nonce + 1 && st.nextNonce.dom == 0
+//@ modifies st.nextNonce
+
+// ---- attesters
+
+//@ func (Keeper) GetAttester(ctx, key) (val, found)
+//@ layer L2
+//@ ensures[get] found == st.attesters.has[key]
+//@ ensures[get.val] found ==> val.Attester == st.attesters.val[key]
+//@ ensures[get.zero] !found ==> val.Attester == ""
+//@ modifies none
+
+//@ func (Keeper) SetAttester(ctx, key)
+//@ layer L2
+//@ ensures[set] st.attesters.has[key.Attester] && st.attesters.val[key.Attester] == key.Attester
+//@ ensures[set.card] st.nAtt == (old(st.attesters.has[key.Attester]) ? old(st.nAtt) : old(st.nAtt) + 1)
+//@ modifies st.attesters[key.Attester], st.nAtt
+
+//@ func (Keeper) DeleteAttester(ctx, key)
+//@ layer L2
+//@ ensures[del] !st.attesters.has[key]
+//@ ensures[del.card] st.nAtt == (old(st.attesters.has[key]) ? old(st.nAtt) - 1 : old(st.nAtt))
+//@ modifies st.attesters[key], st.nAtt
+
+// The list is the prefix range of the store in key order; its length is the collection's cardinal.
+//@ func (Keeper) GetAllAttesters(ctx) (list)
+//@ layer L2
+//@ trusted
+//@ ensures[all.len] len(list) == st.nAtt
+//@ ensures[all.member] forall j: int :: 0 <= j && j < len(list) ==> st.attesters.has[list[j].Attester]
+//@ modifies none
+
+// ---- per-message burn limits
+
+//@ func (Keeper) GetPerMessageBurnLimit(ctx, denom) (val, found)
+//@ layer L2
+//@ ensures[get] found == st.burnLimits.has[denom]
+//@ ensures[get.val] found ==> val.Denom == st.burnLimits.denom[denom] && val.Amount.isnil == st.burnLimits.nil[denom] && val.Amount.v == st.burnLimits.amt[denom]
+//@ ensures[get.zero] !found ==> val.Denom == "" && val.Amount.isnil
+//@ modifies none
+
+// A nil amount is stored as 0 (math.Int.Marshal substitutes a zero big.Int).
+//@ func (Keeper) SetPerMessageBurnLimit(ctx, limit)
+//@ layer L2
+//@ ensures[set] st.burnLimits.has[limit.Denom] && st.burnLimits.denom[limit.Denom] == limit.Denom
+//@ ensures[set.amt] !st.burnLimits.nil[limit.Denom] && st.burnLimits.amt[limit.Denom] == (limit.Amount.isnil ? 0 : limit.Amount.v)
+//@ modifies st.burnLimits[limit.Denom]
+
+// ---- token pairs
+
+//@ func (Keeper) GetTokenPair(ctx, remoteDomain, remoteToken) (val, found)
+//@ layer L2
+//@ ensures[get] found == st.tokenPairs.has[remoteDomain][remoteToken]
+//@ ensures[get.val] found ==> val.LocalToken == st.tokenPairs.local[remoteDomain][remoteToken] && val.RemoteDomain == st.tokenPairs.rdom[remoteDomain][remoteToken] && val.RemoteToken == st.tokenPairs.rtok[remoteDomain][remoteToken]
+//@ ensures[get.zero] !found ==> val.LocalToken == "" && val.RemoteDomain == 0 && len(val.RemoteToken) == 0
+//@ modifies none
+
+//@ func (Keeper) SetTokenPair(ctx, tokenPair)
+//@ layer L2
+//@ ensures[set] st.tokenPairs.has[tokenPair.RemoteDomain][tokenPair.RemoteToken]
+//@ ensures[set.val] st.tokenPairs.local[tokenPair.RemoteDomain][tokenPair.RemoteToken] == tokenPair.LocalToken && st.tokenPairs.rdom[tokenPair.RemoteDomain][tokenPair.RemoteToken] == tokenPair.RemoteDomain && st.tokenPairs.rtok[tokenPair.RemoteDomain][tokenPair.RemoteToken] == tokenPair.RemoteToken
+//@ modifies st.tokenPairs[tokenPair.RemoteDomain][tokenPair.RemoteToken]
+
+//@ func (Keeper) DeleteTokenPair(ctx, remoteDomain, remoteToken)
+//@ layer L2
+//@ ensures[del] !st.tokenPairs.has[remoteDomain][remoteToken]
+//@ modifies st.tokenPairs[remoteDomain][remoteToken]
+
+// ---- used nonces
+
+//@ func (Keeper) GetUsedNonce(ctx, nonce) (found)
+//@ layer L2
+//@ ensures[C02.get C19.get] found == st.usedNonces.has[nonce.SourceDomain][nonce.Nonce]
+//@ modifies none
+
+//@ func (Keeper) SetUsedNonce(ctx, nonce)
+//@ layer L2
+//@ ensures[C02.set] st.usedNonces.has[nonce.SourceDomain][nonce.Nonce]
+//@ ensures[set.val] st.usedNonces.dom[nonce.SourceDomain][nonce.Nonce] == nonce.SourceDomain && st.usedNonces.nonce[nonce.SourceDomain][nonce.Nonce] == nonce.Nonce
+//@ modifies st.usedNonces[nonce.SourceDomain][nonce.Nonce]
+
+// ---- remote token messengers
+
+//@ func (Keeper) GetRemoteTokenMessenger(ctx, remoteDomain) (val, found)
+//@ layer L2
+//@ ensures[get] found == st.messengers.has[remoteDomain]
+//@ ensures[get.val] found ==> val.Address == st.messengers.addr[remoteDomain] && val.DomainId == st.messengers.dom[remoteDomain]
+//@ ensures[get.zero] !found ==> len(val.Address) == 0 && val.DomainId == 0
+//@ modifies none
+
+//@ func (Keeper) SetRemoteTokenMessenger(ctx, remoteTokenMessenger)
+//@ layer L2
+//@ ensures[set] st.messengers.has[remoteTokenMessenger.DomainId] && st.messengers.addr[remoteTokenMessenger.DomainId] == remoteTokenMessenger.Address && st.messengers.dom[remoteTokenMessenger.DomainId] == remoteTokenMessenger.DomainId
+//@ modifies st.messengers[remoteTokenMessenger.DomainId]
+
+//@ func (Keeper) DeleteRemoteTokenMessenger(ctx, remoteDomain)
+//@ layer L2
+//@ ensures[del] !st.messengers.has[remoteDomain]
+//@ modifies st.messengers[remoteDomain]
+
+// ======================================================================= L3: administrative handlers
+// Schema (C10): wrong submitter ==> error and nothing written, emitted or called; success ==> submitter
+// holds the role. `total` states the exact success condition, so a new gate (e.g. a pause flag) fails it (C12).
+
+// ---- owner actions
+
+//@ func (msgServer) UpdateOwner(goCtx, msg) (resp, err)
+//@ requires inited()
+//@ ensures[C10.auth]   msg.From != old(st.owner.val) ==> err != nil && unchanged(st) && events == [] && calls == []
+//@ ensures[C10.only]   err == nil ==> msg.From == old(st.owner.val)
+//@ ensures[C11.valid]  err == nil ==> validBech32(msg.NewOwner)
+//@ ensures[C11.effect] err == nil ==> st.pendingOwner.set && st.pendingOwner.val == msg.NewOwner
+//@ ensures[C10.total C12.admin] msg.From == old(st.owner.val) && validBech32(msg.NewOwner) && !emitErr(0) ==> err == nil
+//@ emits[C11.event]    [OwnershipTransferStarted{PreviousOwner: old(st.owner.val), NewOwner: msg.NewOwner}]
+//@ calls[C04.others C05.others] []
+//@ modifies[C15.frame C11.frame C12.frame C13.frame C02.frame C07.frame] st.pendingOwner
+
+//@ func (msgServer) AcceptOwner(goCtx, msg) (resp, err)
+//@ requires inited()
+//@ ensures[C10.auth C11.accept] !(old(st.pendingOwner.set) && msg.From == old(st.pendingOwner.val)) ==> err != nil && unchanged(st) && events == [] && calls == []
+//@ ensures[C10.only]   err == nil ==> old(st.pendingOwner.set) && msg.From == old(st.pendingOwner.val)
+//@ ensures[C11.effect] err == nil ==> st.owner.set && st.owner.val == msg.From && !st.pendingOwner.set
+//@ ensures[C10.total C12.admin] old(st.pendingOwner.set) && msg.From == old(st.pendingOwner.val) && !emitErr(0) ==> err == nil
+//@ emits[C11.event]    [OwnerUpdated{PreviousOwner: old(st.owner.val), NewOwner: msg.From}]
+//@ calls[C04.others C05.others] []
+//@ modifies[C15.frame C11.frame C12.frame C13.frame C02.frame C07.frame] st.owner, st.pendingOwner
+
+//@ func (msgServer) UpdateAttesterManager(goCtx, msg) (resp, err)
+//@ requires inited()
+//@ ensures[C10.auth]   msg.From != old(st.owner.val) ==> err != nil && unchanged(st) && events == [] && calls == []
+//@ ensures[C10.only]   err == nil ==> msg.From == old(st.owner.val)
+//@ ensures[C11.valid]  err == nil ==> validBech32(msg.NewAttesterManager)
+//@ ensures[C11.effect] err == nil ==> st.attesterManager.set && st.attesterManager.val == msg.NewAttesterManager
+//@ ensures[C10.total C12.admin] msg.From == old(st.owner.val) && validBech32(msg.NewAttesterManager) && !emitErr(0) ==> err == nil
+//@ emits[C11.event]    [AttesterManagerUpdated{PreviousAttesterManager: old(st.attesterManager.val), NewAttesterManager: msg.NewAttesterManager}]
+//@ calls[C04.others C05.others] []
+//@ modifies[C15.frame C11.frame C12.frame C13.frame C02.frame C07.frame] st.attesterManager
+
+//@ func (msgServer) UpdatePauser(goCtx, msg) (resp, err)
+//@ requires inited()
+//@ ensures[C10.auth]   msg.From != old(st.owner.val) ==> err != nil && unchanged(st) && events == [] && calls == []
+//@ ensures[C10.only]   err == nil ==> msg.From == old(st.owner.val)
+//@ ensures[C11.valid]  err == nil ==> validBech32(msg.NewPauser)
+//@ ensures[C11.effect] err == nil ==> st.pauser.set && st.pauser.val == msg.NewPauser
+//@ ensures[C10.total C12.admin] msg.From == old(st.owner.val) && validBech32(msg.NewPauser) && !emitErr(0) ==> err == nil
+//@ emits[C11.event]    [PauserUpdated{PreviousPauser: old(st.pauser.val), NewPauser: msg.NewPauser}]
+//@ calls[C04.others C05.others] []
+//@ modifies[C15.frame C11.frame C12.frame C13.frame C02.frame C07.frame] st.pauser
+
+//@ func (msgServer) UpdateTokenController(goCtx, msg) (resp, err)
+//@ requires inited()
+//@ ensures[C10.auth]   msg.From != old(st.owner.val) ==> err != nil && unchanged(st) && events == [] && calls == []
+//@ ensures[C10.only]   err == nil ==> msg.From == old(st.owner.val)
+//@ ensures[C11.valid]  err == nil ==> validBech32(msg.NewTokenController)
+//@ ensures[C11.effect] err == nil ==> st.tokenController.set && st.tokenController.val == msg.NewTokenController
+//@ ensures[C10.total C12.admin] msg.From == old(st.owner.val) && validBech32(msg.NewTokenController) && !emitErr(0) ==> err == nil
+//@ emits[C11.event]    [TokenControllerUpdated{PreviousTokenController: old(st.tokenController.val), NewTokenController: msg.NewTokenController}]
+//@ calls[C04.others C05.others] []
+//@ modifies[C15.frame C11.frame C12.frame C13.frame C02.frame C07.frame] st.tokenController
+
+//@ func (msgServer) UpdateMaxMessageBodySize(goCtx, msg) (resp, err)
+//@ requires inited()
+//@ ensures[C10.auth]   msg.From != old(st.owner.val) ==> err != nil && unchanged(st) && events == [] && calls == []
+//@ ensures[C10.only]   err == nil ==> msg.From == old(st.owner.val)
+//@ ensures[C19.scalar] err == nil ==> st.maxBody.set && st.maxBody.val == msg.MessageSize
+//@ ensures[C10.total C12.admin] msg.From == old(st.owner.val) && !emitErr(0) ==> err == nil
+//@ emits[C15.event]    [MaxMessageBodySizeUpdated{NewMaxMessageBodySize: msg.MessageSize}]
+//@ calls[C04.others C05.others] []
+//@ modifies[C15.frame C11.frame C12.frame C13.frame C02.frame C07.frame] st.maxBody
+
+//@ func (msgServer) AddRemoteTokenMessenger(goCtx, msg) (resp, err)
+//@ requires inited()
+//@ ensures[C10.auth]   msg.From != old(st.owner.val) ==> err != nil && unchanged(st) && events == [] && calls == []
+//@ ensures[C10.only]   err == nil ==> msg.From == old(st.owner.val)
+//@ ensures[C19.add]    err == nil ==> !old(st.messengers.has[msg.DomainId]) && len(msg.Address) == 32 && st.messengers.has[msg.DomainId] && st.messengers.addr[msg.DomainId] == msg.Address && st.messengers.dom[msg.DomainId] == msg.DomainId
+//@ ensures[C19.dup]    old(st.messengers.has[msg.DomainId]) ==> err != nil
+//@ ensures[C10.total C12.admin] msg.From == old(st.owner.val) && !old(st.messengers.has[msg.DomainId]) && len(msg.Address) == 32 && !emitErr(0) ==> err == nil
+//@ emits[C15.event]    [RemoteTokenMessengerAdded{Domain: msg.DomainId, RemoteTokenMessenger: msg.Address}]
+//@ calls[C04.others C05.others] []
+//@ modifies[C15.frame C19.frame C11.frame C12.frame C13.frame C02.frame C07.frame] st.messengers[msg.DomainId]
+
+//@ func (msgServer) RemoveRemoteTokenMessenger(goCtx, msg) (resp, err)
+//@ requires inited()
+//@ ensures[C10.auth]   msg.From != old(st.owner.val) ==> err != nil && unchanged(st) && events == [] && calls == []
+//@ ensures[C10.only]   err == nil ==> msg.From == old(st.owner.val)
+//@ ensures[C19.remove] err == nil ==> old(st.messengers.has[msg.DomainId]) && !st.messengers.has[msg.DomainId]
+//@ ensures[C19.missing] !old(st.messengers.has[msg.DomainId]) ==> err != nil
+//@ ensures[C10.total C12.admin] msg.From == old(st.owner.val) && old(st.messengers.has[msg.DomainId]) && !emitErr(0) ==> err == nil
+//@ emits[C15.event]    [RemoteTokenMessengerRemoved{Domain: msg.DomainId, RemoteTokenMessenger: old(st.messengers.addr[msg.DomainId])}]
+//@ calls[C04.others C05.others] []
+//@ modifies[C15.frame C19.frame C11.frame C12.frame C13.frame C02.frame C07.frame] st.messengers[msg.DomainId]
+
+// ---- attester manager actions (C13)
+
+//@ func (msgServer) EnableAttester(goCtx, msg) (resp, err)
+//@ requires inited()
+//@ ensures[C10.auth]   msg.From != old(st.attesterManager.val) ==> err != nil && unchanged(st) && events == [] && calls == []
+//@ ensures[C10.only]   err == nil ==> msg.From == old(st.attesterManager.val)
+//@ ensures[C13.enable C19.add] err == nil ==> len(fromHex(msg.Attester)) > 0 && !old(st.attesters.has[msg.Attester]) && st.attesters.has[msg.Attester] && st.attesters.val[msg.Attester] == msg.Attester && st.nAtt == old(st.nAtt) + 1
+//@ ensures[C13.dup C19.dup] old(st.attesters.has[msg.Attester]) ==> err != nil
+//@ ensures[C13.empty]  len(fromHex(msg.Attester)) == 0 ==> err != nil
+//@ ensures[C10.total C12.admin] msg.From == old(st.attesterManager.val) && len(fromHex(msg.Attester)) > 0 && !old(st.attesters.has[msg.Attester]) && !emitErr(0) ==> err == nil
+//@ emits[C15.event]    [AttesterEnabled{Attester: msg.Attester}]
+//@ calls[C04.others C05.others] []
+//@ modifies[C15.frame C19.frame C11.frame C12.frame C02.frame C07.frame] st.attesters[msg.Attester], st.nAtt
+
+//@ func (msgServer) DisableAttester(goCtx, msg) (resp, err)
+//@ requires inited()
+//@ ensures[C10.auth]   msg.From != old(st.attesterManager.val) ==> err != nil && unchanged(st) && events == [] && calls == []
+//@ ensures[C10.only]   err == nil ==> msg.From == old(st.attesterManager.val)
+//@ ensures[C13.disable C19.remove] err == nil ==> old(st.attesters.has[msg.Attester]) && old(st.nAtt) != 1 && old(st.threshold.set) && uint32(old(st.nAtt)) > old(st.threshold.val) && !st.attesters.has[msg.Attester] && st.nAtt == old(st.nAtt) - 1
+//@ ensures[C13.missing C19.missing] !old(st.attesters.has[msg.Attester]) ==> err != nil
+//@ ensures[C10.total C12.admin] msg.From == old(st.attesterManager.val) && len(fromHex(msg.Attester)) > 0 && old(st.attesters.has[msg.Attester]) && old(st.nAtt) != 1 && old(st.threshold.set) && uint32(old(st.nAtt)) > old(st.threshold.val) && !emitErr(0) ==> err == nil
+//@ emits[C15.event]    [AttesterDisabled{Attester: msg.Attester}]
+//@ calls[C04.others C05.others] []
+//@ modifies[C15.frame C19.frame C11.frame C12.frame C02.frame C07.frame] st.attesters[msg.Attester], st.nAtt
+
+//@ func (msgServer) UpdateSignatureThreshold(goCtx, msg) (resp, err)
+//@ requires inited()
+//@ ensures[C10.auth]   msg.From != old(st.attesterManager.val) ==> err != nil && unchanged(st) && events == [] && calls == []
+//@ ensures[C10.only]   err == nil ==> msg.From == old(st.attesterManager.val)
+//@ ensures[C13.update] err == nil ==> msg.Amount != 0 && msg.Amount != (old(st.threshold.set) ? old(st.threshold.val) : 0) && msg.Amount <= uint32(old(st.nAtt)) && st.threshold.set && st.threshold.val == msg.Amount
+//@ ensures[C10.total C13.total C12.admin] msg.From == old(st.attesterManager.val) && msg.Amount != 0 && msg.Amount != (old(st.threshold.set) ? old(st.threshold.val) : 0) && msg.Amount <= uint32(old(st.nAtt)) && !emitErr(0) ==> err == nil
+//@ emits[C15.event]    [SignatureThresholdUpdated{OldSignatureThreshold: uint64(old(st.threshold.set) ? old(st.threshold.val) : 0), NewSignatureThreshold: uint64(msg.Amount)}]
+//@ calls[C04.others C05.others] []
+//@ modifies[C15.frame C11.frame C12.frame C02.frame C07.frame] st.threshold
+
+// ---- pauser actions (C12)
+
+//@ func (msgServer) PauseBurningAndMinting(goCtx, msg) (resp, err)
+//@ requires inited()
+//@ ensures[C10.auth]   msg.From != old(st.pauser.val) ==> err != nil && unchanged(st) && events == [] && calls == []
+//@ ensures[C10.only]   err == nil ==> msg.From == old(st.pauser.val)
+//@ ensures[C12.flag]   err == nil ==> st.bmPaused.set && st.bmPaused.val
+//@ ensures[C10.total C12.admin] msg.From == old(st.pauser.val) && !emitErr(0) ==> err == nil
+//@ emits[C15.event]    [BurningAndMintingPausedEvent{}]
+//@ calls[C04.others C05.others] []
+//@ modifies[C15.frame C12.frame C11.frame C13.frame C02.frame C07.frame] st.bmPaused
+
+//@ func (msgServer) UnpauseBurningAndMinting(goCtx, msg) (resp, err)
+//@ requires inited()
+//@ ensures[C10.auth]   msg.From != old(st.pauser.val) ==> err != nil && unchanged(st) && events == [] && calls == []
+//@ ensures[C10.only]   err == nil ==> msg.From == old(st.pauser.val)
+//@ ensures[C12.flag]   err == nil ==> st.bmPaused.set && !st.bmPaused.val
+//@ ensures[C10.total C12.admin] msg.From == old(st.pauser.val) && !emitErr(0) ==> err == nil
+//@ emits[C15.event]    [BurningAndMintingUnpausedEvent{}]
+//@ calls[C04.others C05.others] []
+//@ modifies[C15.frame C12.frame C11.frame C13.frame C02.frame C07.frame] st.bmPaused
+
+//@ func (msgServer) PauseSendingAndReceivingMessages(goCtx, msg) (resp, err)
+//@ requires inited()
+//@ ensures[C10.auth]   msg.From != old(st.pauser.val) ==> err != nil && unchanged(st) && events == [] && calls == []
+//@ ensures[C10.only]   err == nil ==> msg.From == old(st.pauser.val)
+//@ ensures[C12.flag]   err == nil ==> st.srPaused.set && st.srPaused.val
+//@ ensures[C10.total C12.admin] msg.From == old(st.pauser.val) && !emitErr(0) ==> err == nil
+//@ emits[C15.event]    [SendingAndReceivingPausedEvent{}]
+//@ calls[C04.others C05.others] []
+//@ modifies[C15.frame C12.frame C11.frame C13.frame C02.frame C07.frame] st.srPaused
+
+//@ func (msgServer) UnpauseSendingAndReceivingMessages(goCtx, msg) (resp, err)
+//@ requires inited()
+//@ ensures[C10.auth]   msg.From != old(st.pauser.val) ==> err != nil && unchanged(st) && events == [] && calls == []
+//@ ensures[C10.only]   err == nil ==> msg.From == old(st.pauser.val)
+//@ ensures[C12.flag]   err == nil ==> st.srPaused.set && !st.srPaused.val
+//@ ensures[C10.total C12.admin] msg.From == old(st.pauser.val) && !emitErr(0) ==> err == nil
+//@ emits[C15.event]    [SendingAndReceivingUnpausedEvent{}]
+//@ calls[C04.others C05.others] []
+//@ modifies[C15.frame C12.frame C11.frame C13.frame C02.frame C07.frame] st.srPaused
+
+// ---- token controller actions
+
+// The stored pair carries its own key fields; `rep` is the instance of the state invariant
+// lemma.rep.tokenPairs that this handler relies on when it deletes under the stored token.
+//@ func (msgServer) LinkTokenPair(goCtx, msg) (resp, err)
+//@ requires inited()
+//@ ensures[C10.auth]   msg.From != old(st.tokenController.val) ==> err != nil && unchanged(st) && events == [] && calls == []
+//@ ensures[C10.only]   err == nil ==> msg.From == old(st.tokenController.val)
+//@ ensures[C19.add]    err == nil ==> len(msg.RemoteToken) == 32 && !old(st.tokenPairs.has[msg.RemoteDomain][msg.RemoteToken]) && st.tokenPairs.has[msg.RemoteDomain][msg.RemoteToken] && st.tokenPairs.local[msg.RemoteDomain][msg.RemoteToken] == lower(msg.LocalToken) && st.tokenPairs.rdom[msg.RemoteDomain][msg.RemoteToken] == msg.RemoteDomain && st.tokenPairs.rtok[msg.RemoteDomain][msg.RemoteToken] == msg.RemoteToken
+//@ ensures[C19.dup]    old(st.tokenPairs.has[msg.RemoteDomain][msg.RemoteToken]) ==> err != nil
+//@ ensures[C10.total C12.admin] msg.From == old(st.tokenController.val) && len(msg.RemoteToken) == 32 && !old(st.tokenPairs.has[msg.RemoteDomain][msg.RemoteToken]) && !emitErr(0) ==> err == nil
+//@ emits[C15.event]    [TokenPairLinked{LocalToken: lower(msg.LocalToken), RemoteDomain: msg.RemoteDomain, RemoteToken: msg.RemoteToken}]
+//@ calls[C04.others C05.others] []
+//@ modifies[C15.frame C19.frame C11.frame C12.frame C13.frame C02.frame C07.frame] st.tokenPairs[msg.RemoteDomain][msg.RemoteToken]
+
+//@ func (msgServer) UnlinkTokenPair(goCtx, msg) (resp, err)
+//@ requires inited()
+//@ requires[rep] st.tokenPairs.has[msg.RemoteDomain][msg.RemoteToken] ==> st.tokenPairs.rdom[msg.RemoteDomain][msg.RemoteToken] == msg.RemoteDomain && st.tokenPairs.rtok[msg.RemoteDomain][msg.RemoteToken] == msg.RemoteToken
+//@ ensures[C10.auth]   msg.From != old(st.tokenController.val) ==> err != nil && unchanged(st) && events == [] && calls == []
+//@ ensures[C10.only]   err == nil ==> msg.From == old(st.tokenController.val)
+//@ ensures[C19.remove] err == nil ==> len(msg.RemoteToken) == 32 && old(st.tokenPairs.has[msg.RemoteDomain][msg.RemoteToken]) && !st.tokenPairs.has[msg.RemoteDomain][msg.RemoteToken]
+//@ ensures[C19.missing] !old(st.tokenPairs.has[msg.RemoteDomain][msg.RemoteToken]) ==> err != nil
+//@ ensures[C10.total C12.admin] msg.From == old(st.tokenController.val) && len(msg.RemoteToken) == 32 && old(st.tokenPairs.has[msg.RemoteDomain][msg.RemoteToken]) && !emitErr(0) ==> err == nil
+//@ emits[C15.event]    [TokenPairUnlinked{LocalToken: old(st.tokenPairs.local[msg.RemoteDomain][msg.RemoteToken]), RemoteDomain: msg.RemoteDomain, RemoteToken: msg.RemoteToken}]
+//@ calls[C04.others C05.others] []
+//@ modifies[C15.frame C19.frame C11.frame C12.frame C13.frame C02.frame C07.frame] st.tokenPairs[msg.RemoteDomain][msg.RemoteToken]
+
+//@ func (msgServer) SetMaxBurnAmountPerMessage(goCtx, msg) (resp, err)
+//@ requires inited()
+//@ ensures[C10.auth]   msg.From != old(st.tokenController.val) ==> err != nil && unchanged(st) && events == [] && calls == []
+//@ ensures[C10.only]   err == nil ==> msg.From == old(st.tokenController.val)
+//@ ensures[C19.limit C08.limitkey] err == nil ==> st.burnLimits.has[lower(msg.LocalToken)] && st.burnLimits.denom[lower(msg.LocalToken)] == lower(msg.LocalToken) && !st.burnLimits.nil[lower(msg.LocalToken)] && st.burnLimits.amt[lower(msg.LocalToken)] == (msg.Amount.isnil ? 0 : msg.Amount.v)
+//@ ensures[C10.total C12.admin] msg.From == old(st.tokenController.val) && !emitErr(0) ==> err == nil
+//@ emits[C15.event]    [SetBurnLimitPerMessage{Token: lower(msg.LocalToken), BurnLimitPerMessage: msg.Amount}]
+//@ calls[C04.others C05.others] []
+//@ modifies[C15.frame C19.frame C11.frame C12.frame C13.frame C02.frame C07.frame] st.burnLimits[lower(msg.LocalToken)]
